@@ -17,6 +17,9 @@ errors there).  Anything else is a violation:
     state:<fields>                                            veneer not pristine afterwards
     docs-form-rejected:<form>                                 a form quoted by the reference
     docs-precedence:<example>                                 documented grouping not produced
+File route: every text whose error is located past its last line, and every FILE_EVERY-th mutant, is also
+written to a file and compiled with scenarioFromFile (every IMPORT_EVERY-th also imported as a module
+from a second file) under the same oracle; execution failures are tolerated, the veneer must be pristine.
 Global state: every STATE_EVERY-th mutant (by index in the seed's enumeration, fixed) of the
 seeds whose own scenarioFromString run is fast is driven through scenic.scenarioFromString
 (execution may fail in any way); afterwards veneer.isActive() must be false and the veneer
@@ -233,6 +236,73 @@ def drive(text):
     return outcome, time.process_time() - t0, dirty
 
 
+FILE_EVERY = 50  # besides every text whose error is located past its last line
+IMPORT_EVERY = 200
+FRONT_MARKS = ("compileStream", "parse_string", "compileScenicAST", "compileTranslatedTree")
+EXEC_MARKS = ("executeCodeIn", "constructScenarioFrom", "storeScenarioStateIn")
+
+
+def drive_file(text, via_import=False):
+    """Compile the text from a FILE (scenarioFromFile, or a file importing it as a Scenic module).
+    -> (status, signature, detail) with status accepted / rejected / exec-failed / violation; the
+    front end must fail only with a located ScenicSyntaxError, execution may fail in any way."""
+    import scenic
+    from scenic.core.errors import ScenicSyntaxError
+
+    if veneer_dirty():
+        veneer_reset()
+    d = os.path.join(run_dir(), f"files{os.getpid()}")
+    os.makedirs(d, exist_ok=True)
+    mod = os.path.join(d, "mutant_mod.scenic")
+    main = os.path.join(d, "main_prog.scenic")
+    with open(mod, "w", encoding="utf-8", newline="") as f:
+        f.write(text)
+    target = mod
+    if via_import:
+        with open(main, "w", encoding="utf-8") as f:
+            f.write("import mutant_mod\n")
+        target = main
+    res = ("accepted", None, None)
+    try:
+        with watchdog(EXEC_WATCHDOG_S, cpu=False), contextlib.redirect_stdout(io.StringIO()), contextlib.redirect_stderr(io.StringIO()):
+            scenic.scenarioFromFile(target)
+    except _Timeout:
+        res = ("exec-failed", None, "timeout")
+    except (Exception, SystemExit) as e:
+        stage = "front"
+        for fr in traceback.extract_tb(e.__traceback__):
+            if fr.name in FRONT_MARKS:
+                stage = "front"
+            elif fr.name in EXEC_MARKS:
+                stage = "exec"
+        if stage == "exec":
+            res = ("exec-failed", None, type(e).__name__)
+        elif isinstance(e, ScenicSyntaxError):
+            ln = getattr(e, "lineno", None)
+            if isinstance(ln, int) and not isinstance(ln, bool) and 1 <= ln <= line_bound(text):
+                res = ("rejected", None, ln)
+            else:
+                res = ("violation", f"bad-lineno:{type(e).__name__}:{where_raised(e)}", f"(file route) {type(e).__name__}({e}) names line {ln!r}")
+        else:
+            res = ("violation", escape_signature(e), f"(compiled from a file{', imported as a module' if via_import else ''}) {type(e).__name__}: {str(e)[:200]}")
+    finally:
+        for path in (mod, main):
+            try:
+                os.remove(path)
+            except OSError:
+                pass
+    dirty = veneer_dirty()
+    if dirty:
+        veneer_reset()
+        if res[0] != "violation":
+            res = ("violation", "state:" + "+".join(dirty), f"(file route) veneer not pristine after scenarioFromFile: {dirty}")
+    return res
+
+
+def past_last_line(text, st, detail):
+    return st == "rejected" and isinstance(detail, int) and detail > line_bound(text) - 1
+
+
 # --- work items ---------------------------------------------------------------------------------
 
 
@@ -241,7 +311,10 @@ def work_seed(item):
     origin, text = item
     t0 = time.time()
     st, sig, detail = judge(text)
-    return {"origin": origin, "status": st, "sig": sig, "detail": detail, "secs": time.time() - t0}
+    out = {"origin": origin, "status": st, "sig": sig, "detail": detail, "secs": time.time() - t0, "file": None}
+    if past_last_line(text, st, detail):
+        out["file"] = drive_file(text)
+    return out
 
 
 def work_probe(item):
@@ -273,7 +346,7 @@ def work_unit(item):
     key, text, mode, insert, lo, hi, exec_ok = item
     ms = _mutants_of(key, text, mode, insert)
     out = {"accepted": 0, "rejected": 0, "violations": [], "state_checks": 0, "state_outcomes": {}, "max_secs": 0.0,
-           "n": 0, "kinds": {}, "exec_timeouts": 0}  # fmt: skip
+           "n": 0, "kinds": {}, "exec_timeouts": 0, "file_routes": {}}  # fmt: skip
     for i in range(lo, min(hi, len(ms))):
         desc, m = ms[i]
         t0 = time.time()
@@ -287,6 +360,15 @@ def work_unit(item):
             out["violations"].append((sig, detail, m, f"{key} {desc}", "frontend"))
         else:
             out[st] += 1
+        eof = past_last_line(m, st, detail)
+        if eof or (exec_ok and mode == "single" and i % FILE_EVERY == 0):
+            routes = [False] + ([True] if i % IMPORT_EVERY == 0 else [])
+            for via_import in routes:
+                fst, fsig, fdetail = drive_file(m, via_import)
+                key2 = ("file-eof:" if eof else "file-stride:") + fst
+                out["file_routes"][key2] = out["file_routes"].get(key2, 0) + 1
+                if fst == "violation":
+                    out["violations"].append((fsig, fdetail, m, f"{key} {desc}", "file-import" if via_import else "file"))
         if exec_ok and mode == "single" and i % STATE_EVERY == 0:
             outcome, secs, dirty = drive(m)
             out["state_checks"] += 1
@@ -424,6 +506,9 @@ def minimise(text, sig, mode):
         if mode == "state":
             outcome, _, dirty = drive(t)
             return bool(dirty) and "state:" + "+".join(dirty) == sig
+        if mode in ("file", "file-import"):
+            fst, fsig, _ = drive_file(t, mode == "file-import")
+            return fst == "violation" and fsig == sig
         st, s2, _ = judge(t)
         return st == "violation" and s2 == sig
 
@@ -486,10 +571,20 @@ def run(ctx):
     def add_violation(sig, detail, text, origin, mode):
         violations.setdefault(sig, []).append((len(text), text, detail, origin, mode))
 
+    file_routes = {}
+
+    def absorb_file(r, text, origin):
+        if r.get("file"):
+            fst, fsig, fdetail = r["file"]
+            file_routes["file-eof:" + fst] = file_routes.get("file-eof:" + fst, 0) + 1
+            if fst == "violation":
+                add_violation(fsig, fdetail, text, origin, "file")
+
     # ---- 0 mutations
     accepted_seeds, seed_rej, seed_secs = [], 0, {}
     for (origin, text), r in zip(seeds, ctx.pmap(work_seed, seeds, chunksize=4)):
         seed_secs[origin] = r["secs"]
+        absorb_file(r, text, origin)
         if r["status"] == "accepted":
             accepted_seeds.append((origin, text))
         elif r["status"] == "rejected":
@@ -517,6 +612,7 @@ def run(ctx):
     g_acc = g_rej = 0
     g_roots_accepted = set()
     for (origin, text), r in zip(gforms, ctx.pmap(work_seed, gforms, chunksize=32)):
+        absorb_file(r, text, "grammar form " + origin)
         if r["status"] == "accepted":
             g_acc += 1
             g_roots_accepted.add(origin.split("@")[0])
@@ -528,6 +624,7 @@ def run(ctx):
     lforms = M.literal_and_nesting_forms()
     l_counts = {}
     for (origin, text), r in zip(lforms, ctx.pmap(work_seed, lforms, chunksize=16)):
+        absorb_file(r, text, "literal/nesting form " + origin)
         fam = origin.split(":")[0]
         c = l_counts.setdefault(fam, {"accepted": 0, "rejected": 0, "violation": 0})
         c[r["status"]] += 1
@@ -589,6 +686,8 @@ def run(ctx):
             kinds[k] = kinds.get(k, 0) + v
         for k, v in r["state_outcomes"].items():
             state_outcomes[k] = state_outcomes.get(k, 0) + v
+        for k, v in r["file_routes"].items():
+            file_routes[k] = file_routes.get(k, 0) + v
         for sig, detail, text, origin, mode in r["violations"]:
             add_violation(sig, detail, text, origin, mode)
 
@@ -599,6 +698,13 @@ def run(ctx):
         raise HarnessError(f"vacuous global-state check: outcomes {state_outcomes}")
     if forms_ok == 0:
         raise HarnessError("vacuous: no documented form accepted")
+    if not any(k.startswith("file-eof:") for k in file_routes) or not any(k.startswith("file-stride:") for k in file_routes):
+        raise HarnessError(f"vacuous file route: {file_routes}")
+    import shutil
+
+    for name in os.listdir(run_dir()):
+        if name.startswith("files"):
+            shutil.rmtree(os.path.join(run_dir(), name), ignore_errors=True)
 
     # ---- report: per signature the shortest witnesses, the very shortest minimised further
     n_viol = 0
@@ -668,6 +774,9 @@ def run(ctx):
         state_check_outcomes=state_outcomes,
         state_check_seeds=sum(1 for v in exec_ok.values() if v),
         exec_timeouts=tot["exec_timeouts"],
+        file_route_outcomes=dict(sorted(file_routes.items())),
+        file_route_rule=f"scenarioFromFile on every text whose syntax error is located past its last line and on every {FILE_EVERY}th single mutant "
+        f"(every {IMPORT_EVERY}th also imported as a Scenic module from a second file)",
         slowest_front_end_seconds=round(max_secs, 3),
         violations_by_signature={k: len(v) for k, v in sorted(violations.items())},
         minimal_reproducers=minimal,
@@ -702,6 +811,9 @@ def replay(ctx, case):
         if dirty:
             ctx.violation("state:" + "+".join(dirty), f"after scenarioFromString ({outcome}) the veneer is not pristine: {dirty}\n{text}", case)
         return
-    st, sig, detail = judge(text)
+    if mode in ("file", "file-import"):
+        st, sig, detail = drive_file(text, mode == "file-import")
+    else:
+        st, sig, detail = judge(text)
     if st == "violation":
         ctx.violation(sig, f"{detail}\ninput:\n{text}", case)
